@@ -725,5 +725,92 @@ theorem claimOK_of_guard {α : Type} (cfg : WriterCfg) (m : MeshVal α)
     obtain ⟨j, hj, hje, hlast⟩ := demanded_of_keys _ (fun b => b.names.map (posOf (headerProps (selectWriters cfg m)))) h2 b hb
     exact ⟨j, hj, by rw [hje]; exact ha, by rw [hje]; exact hn, hlast⟩
 
+/-! ## the reader list, exactly: predicted default readers, then the unclaimed scalars in header order -/
+
+/-- the scalar reader `addUnclaimed` builds for property `p` of the header -/
+def v1Of (binary : Bool) (props : List (Bytes × SType)) (p : Bytes × SType) : Built :=
+  ⟨p.1, [p.1], [locOf binary props (posOf props p.1)], if binary then some p.2 else none⟩
+
+theorem buildV1_mem (binary : Bool) (props : List (Bytes × SType)) (hnd : (props.map (·.1)).Nodup)
+    (p : Bytes × SType) (hp : p ∈ props) : buildV1 binary props p.1 p.1 = some (v1Of binary props p) := by
+  obtain ⟨n, t⟩ := p
+  obtain ⟨hi, hpe⟩ := posOf_spec props hnd n t hp
+  rw [buildV1_spec binary n n props (posOf props n) hi (by rw [hpe]) (fun j hj => posOf_first _ _ j hj (by omega))]
+  simp [v1Of, hpe]
+
+theorem foldl_unclaimed_exact (binary : Bool) (props : List (Bytes × SType)) (hnd : (props.map (·.1)).Nodup) :
+    ∀ (l : List (Bytes × SType)) (acc : List Built), (∀ p ∈ l, p ∈ props) → (l.map (·.1)).Nodup →
+      l.foldl (unclaimedStep binary props) acc
+        = acc ++ (l.filter (fun p => !acc.any (fun b => b.claims p.1))).map (v1Of binary props) := by
+  intro l
+  induction l with
+  | nil => intro acc _ _; simp
+  | cons p l ih =>
+    intro acc hl hn
+    have hc := List.nodup_cons.mp (by simpa using hn : (p.1 :: l.map (·.1)).Nodup)
+    have hl' : ∀ q ∈ l, q ∈ props := fun q hq => hl q (by simp [hq])
+    simp only [List.foldl_cons, unclaimedStep]
+    by_cases hany : acc.any (fun b => b.claims p.1) = true
+    · simp only [hany, if_true]
+      rw [ih acc hl' hc.2, List.filter_cons_of_neg (by simp [hany])]
+    · have hany' : acc.any (fun b => b.claims p.1) = false := by simpa using hany
+      simp only [hany', Bool.false_eq_true, if_false, buildV1_mem binary props hnd p (hl p (by simp))]
+      rw [ih _ hl' hc.2, List.filter_cons_of_pos (by simp [hany'])]
+      have hfc : l.filter (fun q => !(acc ++ [v1Of binary props p]).any (fun b => b.claims q.1))
+          = l.filter (fun q => !acc.any (fun b => b.claims q.1)) := by
+        apply List.filter_congr
+        intro q hq
+        have hne : q.1 ≠ p.1 := fun e => hc.1 (e ▸ List.mem_map_of_mem hq)
+        simp [List.any_append, v1Of, Built.claims, hne]
+      rw [hfc]
+      simp
+
+theorem any_filterMap' {β γ : Type} (f : β → Option γ) (q : γ → Bool) : ∀ (l : List β),
+    (l.filterMap f).any q = l.any (fun x => match f x with | some y => q y | none => false) := by
+  intro l
+  induction l with
+  | nil => rfl
+  | cons x l ih =>
+    cases hf : f x with
+    | none => simp [hf, ih]
+    | some y => simp [hf, ih]
+
+/-- THE WHOLE CLAIM STAGE, EXACTLY: inside the guard, the readers `MeshReader.Read` builds on the header of the writers
+`ws` are — as (attribute, names, decoding type) — exactly `claimSpec ws`: the predicted default readers in reader order,
+then one scalar reader per property none of them claims, in header order.  This is the very comparison the oracle
+`c04.holds.claim_ok` makes on the header of every file the real writer emits (`claimAgrees`). -/
+theorem claimSpec_exact (ws : List WProp) (hnd : (wsNames ws).Nodup) (hg : claimGuard ws = true) :
+    (buildAll true (wsProps ws) defaultReaders true).map (fun b => (b.attr, b.names, b.ty))
+      = (claimSpec ws).map (fun x => (x.1, x.2.1, some x.2.2)) := by
+  have hpn : ((wsProps ws).map (·.1)).Nodup := by rw [wsProps_names]; exact hnd
+  simp only [buildAll, if_true, built_default true ws hnd hg, addUnclaimed_eq]
+  rw [foldl_unclaimed_exact true (wsProps ws) hpn _ _ (fun p hp => hp) hpn]
+  simp only [claimSpec, List.map_append, List.map_map]
+  congr 1
+  · simp only [List.map_filterMap]
+    apply filterMap_congr'
+    intro r _
+    cases he : expectNames ws r <;> simp [expectBuilt, he, tyOf]
+  · have hf : ∀ p ∈ wsProps ws,
+        (!(defaultReaders.filterMap (expectBuilt true ws)).any (fun b => b.claims p.1))
+        = (!(defaultReaders.filterMap (fun r => (expectNames ws r).map (fun q => (r.attr, q.1, q.2)))).any
+            (fun x => x.2.1.contains p.1)) := by
+      intro p _
+      rw [any_filterMap', any_filterMap']
+      congr 2
+      funext r
+      cases he : expectNames ws r <;> simp [expectBuilt, he, Built.claims]
+    rw [List.filter_congr hf]
+    apply List.map_congr_left
+    intro p _
+    simp [v1Of]
+
+/-- … hence the oracle predicate is a theorem on the header the MODEL writer produces -/
+theorem claimAgrees_of_guard (ws : List WProp) (hnd : (wsNames ws).Nodup) : claimAgrees ws (wsProps ws) = true := by
+  simp only [claimAgrees, beq_self_eq_true, Bool.true_and, Bool.or_eq_true, Bool.not_eq_true', beq_iff_eq]
+  by_cases hg : claimGuard ws = true
+  · exact .inr (claimSpec_exact ws hnd hg)
+  · exact .inl (by simpa using hg)
+
 end PlyClaim
 end PolyVerif
